@@ -1,4 +1,5 @@
 """C13 (wire part) — limits negotiated at CONNECT hold in both directions: packet size, topic aliases, receive quota."""
+import re
 from .. import core, wire
 
 TOPICS = ["a", "b", "c/d", "e/f/g"]
@@ -179,3 +180,60 @@ def stream(tier):
     n = 500 if tier == "quick" else 15000
     return (core.Stream("broker-limits", "broker", gen, predicate, nontrivial, canon=wire.canon, keep_prefix=1,
                         hint=wire.shared_hints), n)
+
+
+# ------------------------------------------------------------------ configurations: the validator and what a valid one negotiates
+
+def gen_cfg(rng):
+    """boundary configurations through `new` (config.MQTT.Validate on the real side, Cfg.validB + the two unmodelled clauses
+    on the model side), then — when a broker exists — a v5 CONNECT whose CONNACK must advertise exactly the configured
+    limits, and a little traffic under them"""
+    maxq = rng.choice([0, 1, 2, 5, 100, 1000])
+    mi = rng.choice([0, 1, 2, 5, 100, 101, 65535])
+    rm = rng.choice([0, 1, 2, 100, 65535])
+    mp = rng.choice([0, 200, 5000, 268435456])
+    ta = rng.choice([0, 1, 10, 65535])
+    qos = rng.choice([2, 2, 2, 3])
+    mode = rng.choice(["overlap", "onlyonce", "onlyonce", "bogus"])
+    ops = [f"new mode={mode} maxq={maxq} mi={mi} rm={rm} ta={ta} mp={mp} qos={qos}"]
+    ops.append("conn p cp v=5 cs=1")
+    crm = rng.choice([None, 1, 3, 65535]); cta = rng.choice([None, 0, 2]); cmp_ = rng.choice([None, 60, 4000])
+    line = f"conn s cs v={rng.choice([4, 5, 5])} cs=1"
+    if " v=5" in line:
+        if crm is not None: line += f" rm={crm}"
+        if cta is not None: line += f" ta={cta}"
+        if cmp_ is not None: line += f" mp={cmp_}"
+    ops.append(line)
+    ops.append("sub s 1 t/#|1")
+    for i in range(rng.randint(1, 4)):
+        ops.append(f"pub p t/a q={rng.choice([0, 1])} pid={i + 1} tag=c{i}")
+    ops += ["ack s puback all", "ping s", "ping p"]
+    return ops
+
+def pred_cfg(ops, out):
+    if len(out) != len(ops) or (out and out[0].startswith("CRASH")):
+        return "implementation crashed or hung: " + (out[0] if out else "")
+    kv = dict(x.split("=", 1) for x in ops[0].split()[1:])
+    maxq, mi, rm, mp, ta, qos = (int(kv[k]) for k in ("maxq", "mi", "rm", "mp", "ta", "qos"))
+    # config.MQTT.Validate as documented in config/mqtt.go and the configuration reference
+    valid = qos <= 2 and maxq > 0 and rm != 0 and mp != 0 and mi != 0 and kv["mode"] in ("overlap", "onlyonce") and maxq >= mi
+    if (out[0] == "ok") != valid:
+        return f"`{ops[0]}`: the validator answered `{out[0]}`, the documented rules say {'valid' if valid else 'invalid'}"
+    if not valid:
+        return None
+    for op, line in zip(ops[1:], out[1:]):
+        if "HANG" in line or line.startswith(("panic", "CRASH")):
+            return f"`{op}` -> {line[:80]}: a configuration the validator accepts must not wedge or crash the broker"
+        if op.startswith("conn ") and " v=5" in op:
+            m = re.search(r"connack\(sp=\d,code=(\d+),se=\d+,rm=(\d+),ta=(\d+),mp=(\d+),", line)
+            if not m:
+                return f"`{op}`: no v5 CONNACK in `{line[:120]}`"
+            if int(m.group(1)) == 0 and (int(m.group(2)), int(m.group(3)), int(m.group(4))) != (rm, ta, mp):
+                return (f"`{op}`: CONNACK advertises Receive Maximum {m.group(2)}, Topic Alias Maximum {m.group(3)}, Maximum Packet Size "
+                        f"{m.group(4)}; configured {rm}, {ta}, {mp}")
+    return None
+
+def stream_cfg(tier):
+    n = 150 if tier == "quick" else 6000
+    return (core.Stream("config-validate", "broker", gen_cfg, pred_cfg, lambda ops, out: out and out[0] == "ok", canon=wire.canon,
+                        keep_prefix=1, hint=wire.shared_hints), n)
